@@ -300,8 +300,15 @@ def run(ctx) -> None:
         asg = {e.extra.get("name"): e.text for e in p.evs if e.kind == "assign"}
         inc = c.get("included_patterns is None")
         exc = c.get("excluded_patterns is None")
-        it = next((v for k, v in asg.items() if k and "includ" in k), "")
-        et = next((v for k, v in asg.items() if k and "exclud" in k), "")
+        # the include / exclude sets are whatever is handed to _match_path as 2nd / 3rd argument
+        mcalls = [e for L2 in loops for b in L2.extra["paths"] for e in b.evs if e.kind == "call" and e.extra.get("func") == "_match_path"]
+        inc_name = exc_name = None
+        if mcalls and isinstance(mcalls[0].node, ast.Call) and len(mcalls[0].node.args) >= 3:
+            a1, a2 = mcalls[0].node.args[1], mcalls[0].node.args[2]
+            inc_name = a1.id if isinstance(a1, ast.Name) else None
+            exc_name = a2.id if isinstance(a2, ast.Name) else None
+        it = asg.get(inc_name, "") or "="
+        et = asg.get(exc_name, "") or "="
         if inc is None or exc is None:
             okf = False
             msgs.append("defaults are not applied exactly when the argument is None (no `is None` test on this path)")
